@@ -240,9 +240,31 @@ func TestC12_Patches(t *testing.T) {
 				if failAt >= 1 && len(start) > 0 {
 					nontrivial = true
 				}
+				// atomic also for whoever calls next: nothing of the abandoned working copy may show up in an unrelated result
+				if rapid.Bool().Draw(t, "probeAfterFailure") {
+					probe := map[string]interface{}{}
+					if rapid.Bool().Draw(t, "probeWithID") {
+						probe["id"] = "did:other:probe"
+					}
+					pp := map[string]interface{}{"action": "add-also-known-as", "uris": []interface{}{"https://probe.example/" + itoa(s)}}
+					want, _ := refComposeOne(deepCopyValue(probe).(map[string]interface{}), pp)
+					plps, err := libPatches([]interface{}{pp})
+					if err != nil {
+						t.Fatalf("C12 harness: %v", err)
+					}
+					got, err := composer.ApplyPatches(libDoc(probe), plps)
+					if err != nil || docCanon(got) != refJCS(normalizeDoc(want)) {
+						t.Fatalf("C12 a call after a failed patch list shows traces of it: %v\n failed call on %s with %s\n then %s + %s\n got  %s\n want %s",
+							err, in.json, refJCS(vals), refJCS(probe), refJCS(pp), docCanon(got), refJCS(normalizeDoc(want)))
+					}
+					labels = append(labels, "probe-after-failure")
+				}
 				continue // previous document stays in force
 			}
 			labels = append(labels, "call-ok")
+			if g, w := docCanon(res), refJCS(normalizeDoc(work)); g != w {
+				t.Fatalf("C12 result of an applicable patch list differs from the reference (calls so far %v)\n doc %s\n patches %s\n got  %s\n want %s", labels, in.json, refJCS(vals), g, w)
+			}
 			if replacedExisting && len(start) > 0 {
 				nontrivial = true
 			}
